@@ -380,7 +380,7 @@ func init() {
 			"every probe is compared with a Go map/set model; distinct = (collection kind, key kind) cells",
 		NumCases: func(tier string) int {
 			if tier == "thorough" {
-				return 60000
+				return 12000
 			}
 			return 2500
 		},
